@@ -380,6 +380,7 @@ Definition in_range (n : Z) (u : sub) : Prop :=
   | LoopX a b e => (forall i, a <= i <= b -> 1 <= leval e i <= n) /\ (is_var e = true \/ a <= b)
   | Sl3 _ _ _ => False
   | LoopV3 _ _ _ _ => False
+  | LoopX3 _ _ _ _ => False
   end.
 
 Lemma colon_unchecked n : 0 <= n -> shift1 (ca_slice n None None 1) = Ok (mrange 1 1 n).
@@ -403,7 +404,7 @@ Qed.
 (* whatever the configuration: in-range two-part subscripts select the Modelica elements *)
 Lemma index_in_range c n u : 0 <= n -> in_range n u -> index c n u = modelica n u.
 Proof.
-  intros Hn H. destruct u as [i| |a b|a b c3|a b off|a b c3 off|a b e]; cbn [in_range] in H; try contradiction.
+  intros Hn H. destruct u as [i| |a b|a b c3|a b off|a b c3 off|a b e|a b c3 e]; cbn [in_range] in H; try contradiction.
   - apply index_int.
   - cbn [index modelica]. destruct (chk_slice c) eqn:Hc.
     + rewrite slice_checked by (assumption || lia). apply guard_colon.
@@ -427,7 +428,7 @@ Lemma index_checked c n u :
   agrees (index c n u) (modelica n u).
 Proof.
   intros Hs Hl (Hstep & H3) Hn.
-  destruct u as [i| |a b|a b c3|a b off|a b c3 off|a b e]; cbn [step_of three_part] in *.
+  destruct u as [i| |a b|a b c3|a b off|a b c3 off|a b e|a b c3 e]; cbn [step_of three_part] in *.
   - left. apply index_int.
   - left. cbn [index modelica]. rewrite Hs. rewrite slice_checked by (assumption || lia).
     apply guard_colon.
@@ -446,6 +447,9 @@ Proof.
     replace (if mod3 c then b + sgn1 1 else b + 1) with (b + sgn1 1) in H
       by (unfold sgn1; change (0 <? 1) with true; destruct (mod3 c); reflexivity).
     exact H.
+  - cbn [index modelica]. rewrite (H3 eq_refl).
+    pose proof (loopF_checked c n a c3 b (leval e) (is_var e) Hl Hstep) as H.
+    cbv zeta in H. rewrite (H3 eq_refl) in H. exact H.
 Qed.
 
 Lemma two_part_wf c u : three_part u = false -> wf c u.
@@ -458,7 +462,7 @@ Lemma index_checked_exact c n u :
   index c n u = modelica n u.
 Proof.
   intros Hs Hl He (Hstep & H3) Hn.
-  destruct u as [i| |a b|a b c3|a b off|a b c3 off|a b e]; cbn [step_of three_part] in *.
+  destruct u as [i| |a b|a b c3|a b off|a b c3 off|a b e|a b c3 e]; cbn [step_of three_part] in *.
   - apply index_int.
   - cbn [index modelica]. rewrite Hs. rewrite slice_checked by (assumption || lia).
     apply guard_colon.
@@ -478,6 +482,9 @@ Proof.
     replace (if mod3 c then b + sgn1 1 else b + 1) with (b + sgn1 1) in H
       by (unfold sgn1; change (0 <? 1) with true; destruct (mod3 c); reflexivity).
     exact H.
+  - cbn [index modelica]. rewrite (H3 eq_refl).
+    pose proof (loopF_checked_exact c n a c3 b (leval e) (is_var e) Hl He Hstep) as H.
+    rewrite (H3 eq_refl) in H. exact H.
 Qed.
 
 (* consequences of `agrees` *)
@@ -517,4 +524,15 @@ Proof.
   assert (E2 : bare_loop u && negb (chk_scalar_loop c) = false).
   { destruct Hb as [-> | ->]; [reflexivity|cbn [negb]; apply andb_false_r]. }
   rewrite E2. reflexivity.
+Qed.
+
+(* ---- several consecutive for-equations ------------------------------------------------------- *)
+Lemma multi_checked_exact c n us :
+  chk_slice c = true -> chk_loop c = true -> empty_ok c = true ->
+  Forall (wf c) us -> 0 <= n ->
+  index_multi c n us = modelica_multi n us.
+Proof.
+  intros Hs Hl He Hw Hn. unfold index_multi, modelica_multi. f_equal.
+  apply map_ext_in. intros u Hu. rewrite Forall_forall in Hw.
+  apply index_checked_exact; auto.
 Qed.
